@@ -9,6 +9,7 @@ from .. import runprops as P
 
 PROP = "C02"
 PROP_V = "theories/props/C02.v"
+MODEL_AREAS = ('front', 'tc', 'run')
 POLARIZED = ("async", "sync")
 
 
